@@ -389,17 +389,38 @@ def walk(ops, impl):
         except Exception:
             pass
 
+def judge_c05_agree(ops, impl):
+    """Handle(pattern) on a brand-new router without interceptors registers iff CheckSyntax(pattern) accepts, and rejects
+    with the same class of error otherwise (the crash stream puts the pair on consecutive lines)"""
+    bad = []
+    n = min(len(ops), len(impl))
+    for i in range(n - 2):
+        a, b, c = ops[i].split(), ops[i+1].split(), ops[i+2].split()
+        if a and a[0] == 'syntax' and b and b[0] == 'router' and impl[i+1] == 'ok' and b[7] == '%-' and c and c[0] == 'handle' and c[1] == b[1] and c[2] == a[1]:
+            if impl[i].startswith('fault') or impl[i+2].startswith('fault') or 'unsupported' in (impl[i], impl[i+2]):
+                continue
+            if impl[i] != impl[i+2]:
+                bad.append((i + 2, 'CheckSyntax says %s, Handle on a fresh router says %s' % (impl[i], impl[i+2])))
+    return bad
+
 def judge_nofault(ops, impl):
     """C05 (and part of C03/C14): no runtime fault anywhere; Handle either registers or rejects with an error value."""
     bad = []
+    panic_active = [False]
     for i, toks, obs, w in walk(ops, impl):
+        if toks[0] == 'panic-cfg':
+            panic_active[0] = toks[1:4] != ['%-', '%-', '%-']
         if toks[0] in ('serve', 'gserve'):
             r = None
             if toks[0] == 'serve':
                 r = w.routers.get(int(toks[1]))
             # a user panic injected by panic-cfg is not mux's fault; runtime faults are
-            if 'panicked:fault' in obs or 'recovered:fault' in obs or obs == 'fault':
+            if 'panicked:fault' in obs or 'recovered:fault' in obs or obs.startswith('fault'):
                 bad.append((i, 'runtime fault while serving: ' + obs[:120]))
+            elif obs.startswith('nocall => normal'):
+                bad.append((i, 'ServeHTTP returned without calling any handler'))
+            elif ' => panicked:' in obs and not panic_active[0]:
+                bad.append((i, 'a panic escaped ServeHTTP although no user function was told to panic: ' + obs[-40:]))
         elif toks[0].startswith('u-'):
             # unit-level observations of unexported functions on arbitrary strings (tie only): NewSegment is only
             # ever called on Split pieces; its fault on strings like "/:{a}" is proved unreachable (C05.lean)
@@ -429,6 +450,8 @@ def judge_c01(ops, impl):
         if f['node'] == '-':
             if base in ('notFound',) and params:
                 bad.append((i, '404 reports route parameters %r' % params))
+            if base.startswith('user:') or base in ('options', 'notAllowed'):
+                bad.append((i, 'handler %s called without a matched node' % base))
             continue
         pattern = decB(f['node'])
         if pattern == b'':
@@ -594,9 +617,81 @@ def judge_c02(ops, impl):
                 bad.append((i, 'resolved %r to %r, the documented procedure admits only %r' % (path, got, sorted(a)[:3])))
     return bad
 
+def simple_witness(segs, path, litbytes, ic, overshoot):
+    """is `path` the pattern instantiated with SIMPLE values: every value non-empty, sharing no byte with literal text of
+    any live pattern, and accepted by its constraint (the witnesses of C03)"""
+    pos = 0
+    for s in segs:
+        if s.kind == 'str':
+            if not path.startswith(s.value, pos):
+                return False
+            pos += len(s.value)
+        else:
+            j = pos
+            while j < len(path) and path[j] not in litbytes:
+                j += 1
+            v = path[pos:j]
+            if not v or not path.startswith(s.suffix, j) or not seg_accepts(s, v, ic):
+                return False
+            if s.kind == 'rx' and s.suffix:
+                # does the leftmost-first match of rule+suffix on the rest of the path end the capture somewhere else?
+                try:
+                    m = re.match(b'(' + s.rule + b')' + re.escape(s.suffix), path[pos:], re.S)
+                    if m is None or m.end(1) != len(v):
+                        overshoot.append(s.value)
+                except re.error:
+                    pass
+            pos = j + len(s.suffix)
+    return pos == len(path)
+
 def judge_c03(ops, impl):
     bad = []
+    last = {}       # (router, serve line without the op name) -> (obs, node pattern, method, hid)   [frame clause]
     for i, toks, obs, w in walk(ops, impl):
+        if toks[0] in ('handle', 'use', 'fhandle', 'router', 'facade', 'group-use', 'group-add'):
+            # the frame clause is about Remove/Clean only: forget what was seen before any other mutation
+            rid = toks[1] if toks[0] in ('handle', 'use', 'router') else None
+            for k in [k for k in last if rid is None or k[0] == rid]:
+                del last[k]
+        if toks[0] == 'serve' and obs.startswith('call '):
+            r0 = w.routers.get(int(toks[1]))
+            if r0 is not None and not r0.illformed and not getattr(r0, 'rxwide', False):
+                f0 = fields(obs); key = (toks[1], ' '.join(toks[2:]))
+                # frame: only removals since the same request was answered by a (pattern, method) pair that is still live
+                if key in last:
+                    pobs, ppat, pm, phid = last[key]
+                    t = r0.table.get(ppat, {})
+                    def essence(o):
+                        ff = fields(o)
+                        return (ff.get('base'), ff.get('wraps'), ff.get('node'), ff.get('params'), ff.get('path'), o.split(' => ', 1)[-1].split(' live=')[0])
+                    if pm in t and t[pm][0] == phid and essence(pobs) != essence(obs):
+                        bad.append((i, 'Remove/Clean of OTHER routes changed the answer to %r: %s -> %s' % (' '.join(toks[2:4]), pobs[:110], obs[:110])))
+                if f0['base'].startswith('user:') and f0['node'] != '-':
+                    m0 = decB(toks[2]).decode('latin-1'); m0 = 'GET' if m0 == 'HEAD' else m0
+                    last[key] = (obs, decB(f0['node']), m0, int(f0['base'][5:]))
+                else:
+                    last.pop(key, None)
+                # reachability: a request built from a live pattern with simple values is never answered 404
+                if f0['base'] == 'notFound' and r0.table:
+                    path0 = decB(toks[3])
+                    if path0 not in (b'', b'*') and all(c < 0x80 for c in path0):
+                        parsed = {}
+                        for pt in r0.table:
+                            sg = split_pattern(pt, r0.ic)
+                            if not isinstance(sg, str) and braces_ok(sg):
+                                parsed[pt] = sg
+                        litbytes = set()
+                        for sg in parsed.values():
+                            for x in sg:
+                                litbytes.update(x.value if x.kind == 'str' else x.suffix)
+                        for pt, sg in parsed.items():
+                            over = []
+                            if r0.table[pt] and simple_witness(sg, path0, litbytes, r0.ic, over):
+                                if over:
+                                    bad.append((i, 'live route %r is not served (greedy-overshoot: the regexp of %r runs past its following literal): its simple-value witness %r is answered 404' % (pt, over[0], path0)))
+                                else:
+                                    bad.append((i, 'live route %r is not served: its simple-value witness %r is answered 404' % (pt, path0)))
+                                break
         if toks[0] == 'routes' and obs.startswith('routes '):
             r = w.routers.get(int(toks[1]))
             if r is None or r.illformed:
@@ -681,6 +776,9 @@ def judge_c08(ops, impl):
         if method == 'GET':
             last_get[key] = (i, f, obs)
         if f['node'] == '-':
+            # the head stream registers literal patterns only: a request for a live pattern always finds its node
+            if r.table.get(path) and method in ORDER and b'{' not in path:
+                bad.append((i, '%s on the live pattern %r is answered by %s without a node' % (method, path, f['base'])))
             continue
         pattern = decB(f['node'])
         t = r.table.get(pattern, {})
@@ -1053,17 +1151,17 @@ def judge_c13(ops, impl):
         names = [w.routers[rid].name for rid in g['routers'] if rid in w.routers]
         # the first router, in the order added, whose matcher accepts (decidable here for hosts-free matchers)
         hdrs = dict(decM(toks[5])); mp = None if toks[6] == '%!' else dict(decM(toks[6]))
-        first = 'unknown'; mparams = None
+        first = 'unknown'; mparams = None; mpath = None
         for rid in g['routers']:
             expr = g.get('matchers', {}).get(rid)
             if expr is None or 'hosts:' in expr or rid not in w.routers:
                 break
             try:
-                ok, _, mq = eval_matcher(expr, path, hdrs.get(b'Accept', b''), mp, {})
+                ok, mp2, mq = eval_matcher(expr, path, hdrs.get(b'Accept', b''), mp, {})
             except Exception:
                 break
             if ok:
-                first = w.routers[rid].name; mparams = mq; break
+                first = w.routers[rid].name; mparams = mq; mpath = mp2; break
         else:
             first = None
         served = None if (f['base'] == 'groupNotFound' and f['router'] == '%_') else decB(f['router'])
@@ -1082,6 +1180,11 @@ def judge_c13(ops, impl):
                     if k not in own and got.get(k) != v:
                         bad.append((i, 'matcher parameter %r=%r did not reach the handler (it got %r; served route %s)' % (k, v, got, f['node'])))
                         break
+                extra = [k for k in got if k not in own and k not in mparams]
+                if extra:
+                    bad.append((i, 'parameters %r reach the handler but are neither captured by the accepting matcher nor by the served route %s (left by a rejecting matcher or an abandoned branch)' % (extra, f['node'])))
+            if mpath is not None and decB(f['path']) != mpath:
+                bad.append((i, 'the accepting matcher leaves the path %r, the router was entered with %r' % (mpath, decB(f['path']))))
         if f['base'] == 'groupNotFound' and f['router'] == '%_':
             if decB(f['path']) != path or f['params'] != '%-':
                 bad.append((i, 'no router accepted, but the request reached the not-found handler as path=%s params=%s' % (f['path'], f['params'])))
@@ -1340,6 +1443,25 @@ def judge_c17(ops, impl):
             answers[rid][key] = obs
     return bad
 
+def judge_c18_register(ops, impl):
+    """TRACE can never be registered by hand on a router with a configured TRACE handler; without the option it is an
+    ordinary method (registrable, served by its handler)"""
+    bad = []
+    for i, toks, obs, w in walk(ops, impl):
+        if toks[0] != 'handle':
+            continue
+        r = w.routers.get(int(toks[1]))
+        if r is None or r.illformed:
+            continue
+        ms = [m.decode('latin-1') for m in decL(toks[5])]
+        if 'TRACE' not in ms:
+            continue
+        if r.trace and obs == 'ok':
+            bad.append((i, 'TRACE registered by hand although a TRACE handler is configured'))
+        if not r.trace and obs == 'reject:reserved-method' and all(m in ORDER and m not in ('HEAD', 'OPTIONS') for m in ms):
+            bad.append((i, 'TRACE refused as reserved although no TRACE handler is configured'))
+    return bad
+
 def judge_c18(ops, impl):
     bad = []
     for i, toks, obs, w in walk(ops, impl):
@@ -1406,10 +1528,13 @@ def py_parse_int(s, lo, hi):
 def judge_c20(ops, impl):
     bad = []
     shadow = {}
+    pf = {}        # value -> what strconv.ParseFloat returns for it (computed by the generator with the real strconv)
     for i, (line, obs) in enumerate(zip(ops, impl)):
         toks = line.split()
         if not toks:
             continue
+        if toks[0] == 'pf' and len(toks) == 3:
+            pf[decB(toks[1])] = toks[2]
         if toks[0] == 'ctx-new':
             cid = int(toks[1]); shadow[cid] = {}
             if obs != 'ctx count=0 path=%_ router=%_ node=0':
@@ -1446,6 +1571,8 @@ def judge_c20(ops, impl):
                 wb = 'ok:true' if v in (b'1', b't', b'T', b'TRUE', b'true', b'True') else ('ok:false' if v in (b'0', b'f', b'F', b'FALSE', b'false', b'False') else 'syntax')
                 if f['bool'] != wb:
                     bad.append((i, 'Bool(%r) = %s, strconv gives %s' % (v, f['bool'], wb)))
+                if v in pf and f['float'] != pf[v]:
+                    bad.append((i, 'Float(%r) = %s, strconv gives %s' % (v, f['float'], pf[v])))
             # Must* returns the default precisely when the strict accessor fails
             def must(strict, mustv, dflt, conv=lambda x: x):
                 if strict.startswith('ok:'):
@@ -1521,8 +1648,8 @@ JUDGES = {
     'C01': [judge_c01],
     'C02': [judge_c02],
     'C03': [judge_c03, judge_nofault],
-    'C04': [judge_c04],
-    'C05': [judge_nofault],
+    'C04': [judge_c04, judge_c03],
+    'C05': [judge_nofault, judge_c05_agree],
     'C06': [judge_c03, judge_c04, judge_nofault],
     'C07': [judge_c07, judge_c07_decoys],
     'C08': [judge_c08],
@@ -1535,7 +1662,7 @@ JUDGES = {
     'C15': [judge_c15],
     'C16': [judge_c16],
     'C17': [judge_c17],
-    'C18': [judge_c18],
+    'C18': [judge_c18, judge_c18_register],
     'C19': [judge_c19, judge_c03],
     'C20': [judge_c20],
 }
